@@ -538,7 +538,7 @@ def rule_r3(repo, tier='quick'):
         if len(res) != 1:
             raise AnalysisError('parse(%r) forks into %d paths on a concrete string' % (text, len(res)))
         return res[0]
-    subsets = ['', '@[0]', '@[1:]', '@[-1]', '@[::2]', '@[-3]', '@[1:5:2]', '@[:0]', '@[0:0]']
+    subsets = ['', '@[0]', '@[1:]', '@[-1]', '@[::2]', '@[-3]', '@[1:5:2]', '@[:0]', '@[0:0]', '@[:]', '@[::]', '@[0:]', '@[::1]']
     slices = ['', '[0]', '[3]', '[::]', '[1:]', '[:2]', '[1:5:2]', '[-2]', '[-1]', '[::-1]', '[-3:-1]', '[:0]', '[0:]', '[0:0]', '[2:0:-1]', '[0::1]']
     n = 0
     combos = []
